@@ -1,38 +1,95 @@
 #!/usr/bin/env python3
-"""Runs the registered quick check of every filed seeded change (seeded/*/patch.diff) at several seeds in scratch
-worktrees and records which stage caught it: seeded/MATRIX.json. Development aid (not a registered check).
-usage: seeded_matrix.py [seeds, default "1 2 3"] [--only name-substring]"""
-import json, os, re, subprocess, sys
+"""Runs the registered quick checks against every filed seeded change (seeded/*/patch.diff) and records which stage caught it:
+seeded/MATRIX.json. Development aid (not a registered check).
+
+For each seeded change the checks run are: the property the change was written against, plus every other property one of whose
+anchored files (properties.jsonl `anchors.files`) the patch touches — a change to a shared file (ECEFConverter.cpp, LeastSquares.cpp,
+KdTree.cpp, Checkup.hpp, …) is a change to every property anchored there. Each (change, property, seed) job runs in its own scratch
+worktree of /repo and from its own private copy of /verif (so jobs run in parallel and nothing in /verif is rewritten).
+
+usage: seeded_matrix.py [seeds, default "1"] [--only name-substring] [--jobs N, default 4] [--own-only]"""
+import concurrent.futures
+import json
+import os
+import re
+import subprocess
+import sys
+
 V = os.path.dirname(os.path.dirname(os.path.abspath(__file__)))
-only = sys.argv[sys.argv.index('--only') + 1] if '--only' in sys.argv else ''
-seeds = [int(x) for x in sys.argv[1:] if x.isdigit()] or [1, 2, 3]
-out = os.path.join(V, 'seeded', 'MATRIX.json')
-res = json.load(open(out)) if os.path.exists(out) else {}
-for name in sorted(os.listdir(os.path.join(V, 'seeded'))):
+args = sys.argv[1:]
+
+
+def opt(name, default):
+    return args[args.index(name) + 1] if name in args else default
+
+
+only = opt('--only', '')
+jobs = int(opt('--jobs', '4'))
+own_only = '--own-only' in args
+seeds = [int(x) for x in args if x.isdigit() and (args.index(x) == 0 or args[args.index(x) - 1] not in ('--jobs',))] or [1]
+props = [json.loads(l) for l in open(os.path.join(V, 'properties.jsonl'))]
+anch = {p['id']: set(p['anchors']['files']) for p in props}
+
+
+def sh(cmd):
+    return subprocess.run(cmd, shell=True, stdout=subprocess.PIPE, stderr=subprocess.STDOUT, text=True)
+
+
+def touched(patch):
+    return set(m.group(1) for m in re.finditer(r'^\+\+\+ b/(\S+)', open(patch).read(), re.M))
+
+
+def run(job):
+    name, pid, seed = job
+    tag = '%s_%s_%d' % (name, pid, seed)
+    wt, priv = '/tmp/mxwt_' + tag, '/tmp/mxvf_' + tag
     d = os.path.join(V, 'seeded', name)
-    if not os.path.exists(os.path.join(d, 'patch.diff')) or only not in name or name.endswith('-tmp'):
-        continue
-    pid = json.load(open(os.path.join(d, 'meta.json')))['property']
-    wt = '/tmp/mxwt_' + name
-    subprocess.run('git -C /repo worktree remove --force %s; git -C /repo worktree add --detach %s HEAD && git -C %s apply %s/patch.diff' % (wt, wt, wt, d),
-                   shell=True, stdout=subprocess.DEVNULL, stderr=subprocess.DEVNULL)
-    row = {}
-    for s in seeds:
-        r = subprocess.run('cd %s && VERIF_SEED=%d VERIF_REPO=%s python3 tools/check.py %s' % (V, s, wt, pid), shell=True,
-                           stdout=subprocess.PIPE, stderr=subprocess.STDOUT, text=True)
-        o = r.stdout
-        st = ''
-        if 'broken obligation' in o:
-            st += 'A'
-        m = re.search(r'disagreements=(\d+)', o)
-        if m and int(m.group(1)) > 0:
-            st += 'B'
-        if 'failing input' in o:
-            st += 'C'
-        v = [l for l in o.split('\n') if l.startswith('VIOLATION')]
-        row[str(s)] = {'rc': r.returncode, 'stages': st, 'violation': v[0] if v else None}
-        print(name, s, r.returncode, st, flush=True)
-    res[name] = {'property': pid, 'by_seed': row, 'always_detected': all(x['rc'] == 1 and x['violation'] for x in row.values())}
-    subprocess.run('git -C /repo worktree remove --force %s' % wt, shell=True, stdout=subprocess.DEVNULL, stderr=subprocess.DEVNULL)
+    sh('git -C /repo worktree remove --force %s; git -C /repo worktree add --detach %s HEAD && git -C %s apply %s/patch.diff' % (wt, wt, wt, d))
+    sh('rm -rf %s && rsync -a --exclude .git --exclude replays %s/ %s/' % (priv, V, priv))
+    r = sh('cd %s && VERIF_SEED=%d VERIF_REPO=%s python3 tools/check.py %s --tier quick' % (priv, seed, wt, pid))
+    o = r.stdout
+    st = ''
+    if 'broken obligation' in o:
+        st += 'A'
+    m = re.search(r'disagreements=(\d+)', o)
+    if m and int(m.group(1)) > 0:
+        st += 'B'
+    if 'failing input' in o:
+        st += 'C'
+    v = [l for l in o.split('\n') if l.startswith('VIOLATION')]
+    k = re.search(r'failing input: kind=(\S+)', o)
+    sh('git -C /repo worktree remove --force %s; rm -rf %s' % (wt, priv))
+    return job, {'rc': r.returncode, 'stages': st, 'violation': v[0] if v else None, 'kind': k.group(1) if k else None}
+
+
+def main():
+    out = os.path.join(V, 'seeded', 'MATRIX.json')
+    res = json.load(open(out)) if os.path.exists(out) else {}
+    todo = []
+    for name in sorted(os.listdir(os.path.join(V, 'seeded'))):
+        d = os.path.join(V, 'seeded', name)
+        if not os.path.exists(os.path.join(d, 'patch.diff')) or only not in name or name.endswith('-tmp'):
+            continue
+        own = json.load(open(os.path.join(d, 'meta.json')))['property']
+        files = touched(os.path.join(d, 'patch.diff'))
+        pids = [own] + ([] if own_only else sorted(p for p in anch if p != own and anch[p] & files))
+        res[name] = {'property': own, 'files': sorted(files), 'checks': {}}
+        for pid in pids:
+            for s in seeds:
+                todo.append((name, pid, s))
+    with concurrent.futures.ThreadPoolExecutor(max_workers=jobs) as ex:
+        for (name, pid, s), row in ex.map(run, todo):
+            res[name]['checks'].setdefault(pid, {})[str(s)] = row
+            print(name, pid, s, row['rc'], row['stages'], row['kind'], flush=True)
+            json.dump(res, open(out, 'w'), indent=1, sort_keys=True)
+    for name, r in res.items():
+        own = r['checks'].get(r['property'], {})
+        r['always_detected_by_own_check'] = bool(own) and all(x['rc'] == 1 and x['violation'] for x in own.values())
+        r['also_detected_by'] = sorted(p for p, rows in r['checks'].items() if p != r['property'] and any(x['violation'] for x in rows.values()))
     json.dump(res, open(out, 'w'), indent=1, sort_keys=True)
-subprocess.run('git -C %s checkout -- lean/RomeaModel/Generated' % V, shell=True)
+    missed = [n for n, r in res.items() if not r.get('always_detected_by_own_check')]
+    print('%d seeded changes, not always detected by their own check: %s' % (len(res), missed))
+
+
+if __name__ == '__main__':
+    main()
